@@ -13,7 +13,7 @@ def apply(F):
     for t, f in (('PublicKey', 'ec_pk_bytes'), ('PrivateKey', 'ec_sk_bytes'), ('KexResult', 'ec_ss_bytes')):
         S = M + [r'impl Serializable for %s\b' % t]
         F.insert_in(M, S[-1], '    closed spec fn ser(&self) -> Bytes { %s(&self.0) }' % f)
-        F.contract(S, r'fn write_exact\b', attrs=['#[verifier::external_body]'], discharged_by='TRUSTED (dependency encoder: SEC1 point / scalar / x-coordinate bytes; private keys cross-checked by kani:nist_sk_from_bytes_p256, _p384)')
+        F.contract(S, r'fn write_exact\b', attrs=['#[verifier::external_body]'], discharged_by='TRUSTED (dependency encoder: SEC1 point / scalar / x-coordinate bytes; private keys cross-checked by kani:nist_sk_from_bytes_p256, _p384; all three types pinned on the SEC 2 generator by the bounded native run kat/nist_kat.rs in C12)')
         F.wrap(M, S[-1])
     D = M + [r'impl Deserializable for PublicKey\b']
     F.insert_in(M, D[-1], '                // ghost: RFC 9180 §7.1.4 validation of public keys\n                open spec fn de_valid(b: Bytes) -> bool { sec1_valid::<CurveTy>(b) }')
